@@ -31,7 +31,8 @@ def make_pool():
     g3 = g1.copy()
     g3["b"]["d"]["flow"] = -1            # invalid unless that edge is ignored / has error scale 0
     return {"g1": g1, "g2": g2, "g3": g3, "e1": {("b", "d"): 0}, "o1": {}, "o2": {"optimize_with_safe_paths": False, "optimize_with_safe_zero_edges": False},
-            "s1": {"threads": 1}, "c1": [[("a", "b"), ("b", "c")]], "i1": [("b", "d")]}
+            "s1": {"threads": 1}, "c1": [[("a", "b"), ("b", "c")]], "i1": [("b", "d")],
+            "t1": [("a", "b")]}      # caller-owned list of trusted edges, handed to every class that accepts one
 
 
 def dump(o):
@@ -64,6 +65,9 @@ def build(fp, cls_idx, pool, g, o, s, c, i, e="omit"):
         kw["elements_to_ignore"] = pool[i]
     if e != "omit" and (name.startswith("kLeastAbs") or name.startswith("kMinPathError")):
         kw["error_scaling"] = pool[e]
+    import inspect
+    if "trusted_edges_for_safety" in inspect.signature(getattr(fp, name).__init__).parameters:
+        kw["trusted_edges_for_safety"] = pool["t1"]
     return getattr(fp, name)(**kw)
 
 
